@@ -378,7 +378,7 @@ def fuse_junctions(net, j1, j2, drop=True):
     :return: net - the new pandapipes network
     :rtype: pandapipesNet
     """
-    j2 = set(j2) - {j1} if isinstance(j2, Iterable) else [j2]
+    j2 = set(j2) - {j1} if isinstance(j2, Iterable) else {j2} - {j1}
 
     for element, value in element_junction_tuples(net=net):
         i = net[element][net[element][value].isin(j2)
